@@ -123,6 +123,17 @@ class AceGroup(AceBase, Group):
     # =========================== property ===========================
 
     @property
+    def version(self):
+        """Software version, the items of the group follow it."""
+        return self._version
+
+    @version.setter
+    def version(self, version) -> None:
+        self._version = version
+        for item in getattr(self, "_items", []):
+            item.version = version
+
+    @property
     def group_by(self) -> str:
         """Group ACEs to AceGroup by startswith ot this value in remarks."""
         return self._group_by
